@@ -264,6 +264,19 @@ def run_one(exe, cfg, timeout=60, env=None):
         return 124, (ex.stdout or b"").decode(errors="replace") if isinstance(ex.stdout, bytes) else (ex.stdout or ""), "[timeout]"
 
 
+def run_batches(exe, cfgs, timeout=60, env=None, batch=8):
+    """Run the configurations 4 at a time; stop launching new batches once a run hung or crashed (each hang costs the
+    watchdog's 10 s).  Returns the results of the runs that were made (a prefix of cfgs)."""
+    results = []
+    with cf.ThreadPoolExecutor(max_workers=4) as ex:
+        for i in range(0, len(cfgs), batch):
+            part = list(ex.map(lambda c: run_one(exe, c, timeout=timeout, env=env), cfgs[i:i + batch]))
+            results += part
+            if any(rc not in (0, 66) for rc, _, _ in part):
+                break
+    return results
+
+
 def run_stress(ctx, prefix="c15", per_config=None, closer_only=False):
     """Returns the list of (cfg, events) of the completed runs."""
     hook = hook_present(ctx)
@@ -281,8 +294,7 @@ def run_stress(ctx, prefix="c15", per_config=None, closer_only=False):
                          "response oracle only")
     done = []
     validated = 0
-    with cf.ThreadPoolExecutor(max_workers=4) as ex:
-        results = list(ex.map(lambda c: run_one(exe, c), cfgs))
+    results = run_batches(exe, cfgs)
     for cfg, (rc, out, err) in zip(cfgs, results):
         name = "cap%d/P%d/C%d/closer%d/seed%d" % (cfg[0], cfg[1], cfg[2], cfg[3], cfg[5])
         cmd = f"{exe} stress " + " ".join(map(str, cfg))
@@ -312,7 +324,7 @@ def run_stress(ctx, prefix="c15", per_config=None, closer_only=False):
                                f"{ctx.workdir / (prefix + '_rejected_trace.txt')}")
         done.append((cfg, evs))
     ctx.coverage["traces_validated_against_impl"] = ctx.coverage.get("traces_validated_against_impl", 0) + validated
-    ctx.coverage["stress_runs"] = ctx.coverage.get("stress_runs", 0) + len(cfgs)
+    ctx.coverage["stress_runs"] = ctx.coverage.get("stress_runs", 0) + len(results)
     if done:
         cfg, evs = done[len(done) // 2]
         ctx.sample({"stress_run": "cap=%d producers=%d consumers=%d closer=%d items/producer=%d seed=%d" % cfg,
@@ -334,17 +346,18 @@ def run_tsan(ctx):
         return
     per = 3 if ctx.tier == "thorough" else 1
     cfgs = stress_configs(ctx, "c15-tsan", per)
-    with cf.ThreadPoolExecutor(max_workers=4) as ex:
-        results = list(ex.map(lambda c: run_one(exe, c, timeout=120, env={"TSAN_OPTIONS": "halt_on_error=0 report_signal_unsafe=0"}), cfgs))
+    results = run_batches(exe, cfgs, timeout=120, env={"TSAN_OPTIONS": "halt_on_error=0 report_signal_unsafe=0"})
     reports = 0
     for cfg, (rc, out, err) in zip(cfgs, results):
         ctx.case("tsan:" + "/".join(map(str, cfg)), True)
         ctx.count("tsan-run")
         if "WARNING: ThreadSanitizer" in err:
             reports += 1
-            rep = err[err.index("WARNING: ThreadSanitizer"):][:2500]
+            rep = err[err.index("WARNING: ThreadSanitizer"):]
+            rep = rep.split("==================")[0][:3000]          # the first report only
+            top = " ".join(re.findall(r"#0 ([^\n]*)", rep)[:2])       # innermost frames of the two conflicting accesses
             cmd = f"{exe} stress " + " ".join(map(str, cfg))
-            if re.search(r"is_open|is_closed", rep):
+            if re.search(r"is_open|is_closed", top):
                 ctx.violation("queue-unlocked-state-read",
                               "is_open()/is_closed() read state_ without the mutex while close()/get() write it under the lock (data race)",
                               {"command": cmd, "tsan_report": rep.split("\n")[:40], "model": MODEL_SCHEDULE_F6})
@@ -355,7 +368,7 @@ def run_tsan(ctx):
             key = "queue-stress-hang" if (rc in (3, 124) or "HANG" in out) else "queue-stress-crash"
             ctx.violation(key, "stress run under ThreadSanitizer did not finish normally",
                           {"command": f"{exe} stress " + " ".join(map(str, cfg)), "exit": rc, "output": (out[-300:] + err[-600:])})
-    ctx.coverage["tsan"] = {"runs": len(cfgs), "runs_with_reports": reports}
+    ctx.coverage["tsan"] = {"runs": len(results), "runs_with_reports": reports}
 
 
 def run(ctx):
